@@ -65,6 +65,12 @@ Section Real.
                             sfind (nslot new_bucket bucket_pos (a_key old) (a_src old)) (s_new s) = Some id0)) /\
     (forall k0, find_addr s k0 = None -> find_addr s' k0 = None).
   Proof. intros R. apply (MAIN good_effect). apply real_reach_inv; auto. Qed.
+  Lemma real_select_sound s new_only nets side : reachable s -> select_plan s new_only nets = Some side ->
+    exists id a, zfind id (s_info s) = Some a /\
+      (nets = [] \/ In (network (a_key a)) nets) /\ (new_only = true -> a_tried a = false) /\
+      match side with Some true => a_tried a = true | Some false => a_tried a = false | None => True end /\
+      (if a_tried a then sfind (tslot tried_bucket bucket_pos (a_key a)) (s_tried s) = Some id else exists sl, sfind sl (s_new s) = Some id).
+  Proof. intros R. destruct (real_reach_inv s R) as (G & _). apply (MAIN select_plan_sound s new_only nets side G). Qed.
   Lemma real_serialize_ok s order : reachable s -> NoDup order -> (forall id, In id order <-> In id (keys (s_info s))) ->
     exists f, serialize real_cfg s order = Ok f /\ f_nnew f = s_nnew s /\ f_ntried f = s_ntried s /\
       zlen (f_new f) = s_nnew s /\ zlen (f_tried f) = s_ntried s /\
